@@ -44,7 +44,7 @@ func C05(o *world.Obs) *Result {
 					continue
 				}
 				r.Label("miss:" + shapeOf(c))
-				if c.FailAt > 0 {
+				if c.BodyFails() {
 					if ex.Resp.BodyErr == "" {
 						r.Fail("C05", "body-error-swallowed", ex.Idx, "origin body fails after %d bytes but the client read %d bytes without error; %s", c.FailAt-1, len(ex.Resp.Body), SummarizeExchange(o, ex))
 					}
@@ -227,7 +227,7 @@ func C15Transport(o *world.Obs) *Result {
 		if !fromStore {
 			// own reply: must be complete
 			for _, c := range o.FgCalls(ex) {
-				if c.Kind == "resp" && world.TokOf(ex.Resp.Header) == c.Serial && c.FailAt == 0 && !bytes.Equal(ex.Resp.Body, c.Body) {
+				if c.Kind == "resp" && world.TokOf(ex.Resp.Header) == c.Serial && !c.BodyFails() && !bytes.Equal(ex.Resp.Body, c.Body) {
 					r.Fail("C15", "origin-reply-damaged", ex.Idx, "origin reply forwarded with %d of %d bytes; %s", len(ex.Resp.Body), len(c.Body), SummarizeExchange(o, ex))
 				}
 			}
